@@ -378,7 +378,7 @@ func c02Value(c *checker, v *wv.V, how string) {
 		c.oracle("C02 Decode(Encode v)≠v", fmt.Sprintf("L %d %s", v.T, hx(b)), l, "random-access decode of Encode(v) is not v: want "+want)
 	}
 	c.expect("C02 Decode+force vs model decF", fmt.Sprintf("L %d %s", v.T, hx(b)), l)
-	s, _, _ := implStream(v.T, b, nil)
+	s, _, _ := implStream(v.T, b, c02Sizes(len(b)))
 	if s != want {
 		c.oracle("C02 StreamRead(Encode v)≠v", fmt.Sprintf("D %d %s", v.T, hx(b)), s, "streaming read of Encode(v) is not v: want "+want)
 	}
@@ -386,6 +386,33 @@ func c02Value(c *checker, v *wv.V, how string) {
 	if len(c.pend) > 20000 {
 		c.flush()
 	}
+}
+
+// read segmentation for the C02 stream read: cheap deterministic rotation of whole / 1-byte /
+// 3-byte / 7-byte chunks (C03 explores random segmentations).
+var c02Seg int
+
+func c02Sizes(n int) []int {
+	c02Seg++
+	var k int
+	switch c02Seg % 4 {
+	case 0:
+		return nil
+	case 1:
+		k = 1
+	case 2:
+		k = 3
+	default:
+		k = 7
+	}
+	if n > 4096 {
+		k = 4093 // keep huge binaries cheap but still segmented
+	}
+	s := make([]int, 0, n/k+1)
+	for left := n; left > 0; left -= k {
+		s = append(s, k)
+	}
+	return s
 }
 
 func runC02(c *checker, r *rng.R) {
@@ -418,6 +445,22 @@ func runC02(c *checker, r *rng.R) {
 	for _, n := range []int{1<<20 - 1, 1 << 20, 1<<20 + 1} {
 		v := &wv.V{T: wv.TStruct, Fields: []wv.Field{{ID: 1, V: &wv.V{T: wv.TBinary, Bin: r.Bytes(n)}}, {ID: 2, V: &wv.V{T: wv.TBool, U: 1}}}}
 		c02Value(c, v, "threshold-binary")
+		c.flush()
+	}
+	// two binaries above the threshold in one value (a reader must not hand out storage it reuses)
+	{
+		big := func(n int, seed byte) *wv.V {
+			b := make([]byte, n)
+			for i := range b {
+				b[i] = seed + byte(i%251)
+			}
+			return &wv.V{T: wv.TBinary, Bin: b}
+		}
+		v := &wv.V{T: wv.TStruct, Fields: []wv.Field{{ID: 1, V: big(1<<20+5, 1)}, {ID: 2, V: big(1<<20+9, 77)}}}
+		c02Value(c, v, "two-large-binaries")
+		c.flush()
+		l := &wv.V{T: wv.TList, ET: wv.TBinary, Items: []*wv.V{big(1<<20+1, 3), big(1<<20+1, 9), big(10, 5)}}
+		c02Value(c, l, "two-large-binaries")
 		c.flush()
 	}
 	c.flush()
